@@ -29,7 +29,7 @@ class Fixture(object):
         for c in self.callables:
             p, text, pos = layout_text(c.body, case=case)
             self.printed[c.kind + ':' + c.name] = (p, text, pos)
-        D = c15_callables.diagram_with(self.callables, None)
+        D = c15_callables.diagram_with(self.callables, None, second_group=True)
         D['irdt'] = True
         key = lambda c: c.kind + ':' + c.name
         src = dict((key(c), (texts or {}).get(key(c), self.printed[key(c)][1])) for c in self.callables)
